@@ -59,3 +59,24 @@ Theorem C09_concurrent_stable_injective (progs : list (list nat)) sched :
     In (n1, v1) (Conc.results t1) -> In (n2, v2) (Conc.results t2) -> (n1 = n2 <-> v1 = v2).
 Proof. exact (ConcProofs.stable_injective progs sched). Qed.
 Print Assumptions C09_concurrent_stable_injective.
+
+(* concurrent creation of the fields and tag keys of one metric (the index worker and the metadata worker of a row), every
+   schedule of every number of callers: what a caller was given is what a later lookup finds, all callers agree on a
+   name, different names of a kind have different ids *)
+From LinDBV.C09 Require Schema.
+Theorem C09_schema_stable_injective (progs : list (list Schema.req)) sched :
+  let s := Schema.run true (Schema.init progs) sched in
+  (forall t r v, In t (Schema.threads s) -> In (r, v) (Schema.results t) -> Schema.lookup s r = Some v) /\
+  (forall t1 t2 r1 r2 v1 v2, In t1 (Schema.threads s) -> In t2 (Schema.threads s) ->
+     In (r1, v1) (Schema.results t1) -> In (r2, v2) (Schema.results t2) ->
+     fst r1 = fst r2 -> (snd r1 = snd r2 <-> v1 = v2)).
+Proof. exact (Schema.schema_stable_injective progs sched). Qed.
+Print Assumptions C09_schema_stable_injective.
+
+(* the code before its repair: a caller that read "no schema" appended to an object of its own *)
+Theorem C09_schema_lost_update_refuted :
+  let s := Schema.run false (Schema.init [[(Schema.KF, 1); (Schema.KF, 3)]; [(Schema.KT, 7)]]) [0; 1; 1; 0; 0; 0] in
+  Schema.lookup s (Schema.KF, 1) = None /\ Schema.lookup s (Schema.KF, 3) = Some 0 /\
+  exists t, In t (Schema.threads s) /\ In ((Schema.KF, 1), 0) (Schema.results t) /\ In ((Schema.KF, 3), 0) (Schema.results t).
+Proof. exact Schema.schema_lost_update_refuted. Qed.
+Print Assumptions C09_schema_lost_update_refuted.
